@@ -22,6 +22,7 @@ inductive Word where
   | tag (i : Nat) | ref (i : Nat) | val (i : Nat)
   | pos (s : Nat) | ncons (s : Nat)
   | wlock | wcv | cwait | pwait
+  | epoch | tok (g : Nat) | mxmgr | mxwtf
   | loc      -- a `CountedIndex` local to the destructor
   | anon     -- a payload outside the ring (taus on it), fences, yields
   deriving DecidableEq, Repr, Inhabited
@@ -30,7 +31,7 @@ inductive Ord where | rlx | acq | rel | acqrel | sc | na
   deriving DecidableEq, Repr, Inhabited
 
 inductive Kind where
-  | load | store | cas | casw | fadd | fsub | for_ | fand | lock | cvwait | cvnotify | yield_ | sleep
+  | load | store | cas | casw | fadd | fsub | for_ | fand | lock | trylock | cvwait | cvnotify | yield_ | sleep
   | tauWrite | tauRead | tauClone | tauView | tauDrop
   deriving DecidableEq, Repr, Inhabited
 
@@ -92,6 +93,21 @@ inductive WPh where
   | after                -- Blocking: check after the condvar wait
   | parked               -- FutWait::park: check under the list lock
   | futw                 -- FutWait::wait (blocking recv on a futures queue): check, yield, ...
+  deriving DecidableEq, Repr, Inhabited
+
+/-- heap objects that go through the memory manager -/
+inductive Obj where
+  | grp (k : Nat) | posO (s : Nat) | tokO (g : Nat)
+  deriving DecidableEq, Repr, Inhabited
+
+/-- where a memory-manager sub-program returns to -/
+inductive MK where
+  | sendStart | recvStart          -- `update_token` at the start of a send / receive
+  | rmTok (k : Nat)                -- `update_token` inside `remove_token` (k: 0 sender drop, 1 receiver drop)
+  | cloneS | retNew                -- `get_token` in sender clone / in receiver clone and add_stream
+  | addFree                        -- `free(old group)` in add_stream
+  | rmFree1 | rmFree2              -- the two `free` calls of remove_reader
+  | rmTokFree (k : Nat)            -- `free(token)` inside `remove_token`
   deriving DecidableEq, Repr, Inhabited
 
 inductive PC where
@@ -156,8 +172,15 @@ inductive PC where
   | tdb (i : Nat) | tdbd (i : Nat)
   | tm1 (c : Nat) | tm2 (c : Nat) | tm3 (c : Nat) | tmd (c : Nat) | tm4 (c : Nat)
   | tdr               -- `Drop for ReadCursor`: load the last group pointer and release it
+  | tdm               -- `Drop for MemoryManager`: lock the waiting list and release what is in it
   -- sink
   | sy | spl
+  -- memory manager
+  | u1 (k : MK) | u2 (k : MK) (e : Nat) | u3 (k : MK) (e : Nat)
+  | gt1 (k : MK) | gt2 (k : MK)
+  | f1 (k : MK) (x : Obj) | f2 (k : MK) | f3 (k : MK) | f4 (k : MK) (e i : Nat) | f5 (k : MK)
+  | f7 (k : MK) | f8 (k : MK) | f9 (k : MK) (cur : Nat) | f10 (k : MK)
+  | rt1 (k : Nat)
   deriving DecidableEq, Repr, Inhabited
 
 structure Hd where
@@ -169,6 +192,7 @@ structure Hd where
   alive : Bool := false
   used : Bool := false      -- the id has been handed out
   busy : Bool := false      -- some thread is inside a call on this handle
+  tok : Nat := 0            -- id of the handle's memory token
   deriving Repr, Inhabited
 
 structure Th where
@@ -219,6 +243,17 @@ structure St where
   live : Nat := 2              -- live handles
   sused : Nat → Bool := fun s => s == 0   -- stream ids handed out
   est : Nat → Bool := fun s => s == 0     -- streams that have been published in a reader group
+  -- memory manager
+  epoch : Nat := 0
+  iepoch : Nat := 0                       -- `MemoryManagerInner.epoch`
+  sigE : Bool := false                    -- signal bit 0 (update epoch)
+  tokv : Nat → Nat := fun _ => 0          -- token id -> epoch value
+  toks : List Nat := [0, 1]               -- registered tokens, in vector order
+  wtf : List Obj := []                    -- `wait_to_free`
+  tofree : List Obj := []                 -- `MemoryManagerInner.tofree`
+  mgrOwner : Option Nat := none
+  wtfOwner : Option Nat := none
+  freed : List Obj := []                  -- ghost: everything deallocated through the manager so far
   sl : List Nat := [0]                    -- ghost: sender handles counted in `writers`
   cl : Nat → List Nat := fun s => if s = 0 then [1] else []   -- ghost: receiver handles counted in `num_consumers`
 
@@ -394,6 +429,59 @@ def checkDone (σ : St) (t : Nat) (j seq : Nat) (ph : WPh) (b : Bool) : St :=
       else ({ σ with cwaitL := σ.cwaitL ++ [t] }).goto t .psl
   | .futw => if b then waitDone σ t else σ.goto t (.wy j seq .futw)
 
+/-- end of a receiver drop (after `remove_token`): fence SeqCst; f(): futures receivers notify the producers'
+list; then the handle's reference is released -/
+def recvDropTail (σ : St) (t : Nat) : St :=
+  let x := σ.th t
+  let r : Res := match x.outer with | .unsub => .bool (x.aux = 1) | _ => .dropped
+  let h_ := σ.hs x.g
+  if h_.fut then
+    (σ.setTh t fun y => { y with ff := y.ff ++ [.sc] }).goto t (.nf true (match x.outer with | .unsub => 9 | .intoSingleFut => 10 | .intoMultiFut => 11 | _ => 6))
+  else (teardownStart σ t r).setTh t fun y => { y with ff := y.ff ++ [.sc] }
+
+/-- end of a sender drop (after `remove_token`): `waiter.notify()`, then the reference is released -/
+def sendDropTail (σ : St) (t : Nat) : St :=
+  match σ.wait with
+  | .blocking _ _ => σ.goto t (.nb1 3)
+  | .fut _ _ => σ.goto t (.nf false 6)
+  | _ => teardownStart σ t .dropped
+
+/-- where a finished memory-manager sub-program continues -/
+def mgrDone (σ : St) (t : Nat) (k : MK) : St :=
+  let x := σ.th t
+  match k with
+  | .sendStart =>
+      if σ.noReader then sendDone σ t .disc
+      else if (σ.hs x.g).uni then σ.goto t (.sh false) else σ.goto t .m1
+  | .recvStart => σ.goto t .la1
+  | .rmTok kk => σ.goto t (.rt1 kk)
+  | .cloneS => σ.goto t .cs1
+  | .retNew =>
+      match x.outer with
+      | .intoMultiFut | .intoSingleFut => σ.goto t .dr1
+      | _ => σ.goto t (.ret .new)
+  | .addFree => σ.goto t (.gt1 .retNew)
+  | .rmFree1 => σ.goto t (.f1 .rmFree2 (.posO x.s))
+  | .rmFree2 => σ.goto t .rr4
+  | .rmTokFree kk =>
+      -- both guards of `remove_token` are dropped
+      let σ1 := { σ with mgrOwner := none, wtfOwner := none }
+      if kk = 0 then sendDropTail σ1 t else recvDropTail σ1 t
+
+/-- tail of `free`: if more than 20 objects wait, try to start a reclamation cycle; else release the list lock -/
+def freeTail (σ : St) (t : Nat) (k : MK) : St :=
+  if σ.wtf.length > 20 then σ.goto t (.f7 k)
+  else
+    match k with
+    | .rmTokFree _ => mgrDone σ t k
+    | _ => mgrDone { σ with wtfOwner := none } t k
+
+/-- `free` leaves: releases the list lock unless the caller (`remove_token`) still needs its own guard -/
+def freeEnd (σ : St) (t : Nat) (k : MK) : St :=
+  match k with
+  | .rmTokFree _ => mgrDone σ t k
+  | _ => mgrDone { σ with wtfOwner := none } t k
+
 /-- Nat-level meaning of `wait::check(seq, tag, writers)` -/
 def checkVal (seq : Nat) (tg : Option Nat) (writers : Nat) : Bool :=
   writers == 0 ||
@@ -419,11 +507,10 @@ def stepRun (σ0 : St) (t : Nat) (inp : Nat) : Obs × St :=
   | .ret _ => (defaultObs, σ0)
   ---------------------------------------------------------------- send
   | .s0 =>
-      let flags := (if σ0.noReader then 2 else 0) + (inp % 2)
+      let flags := (if σ0.noReader then 2 else 0) + (if σ0.sigE then 1 else 0)
       let o := mkObs σ0 t .load .signal .rlx (res := flags)
-      if σ0.noReader then (o, sendDone σ t .disc)
-      else if h_.uni then (o, σ.goto t (.sh false))
-      else (o, σ.goto t .m1)
+      -- handle_signals: the epoch bit makes the handle refresh its token first
+      if σ0.sigE then (o, σ.goto t (.u1 .sendStart)) else (o, mgrDone σ t .sendStart)
   | .m1 =>
       let o := mkObs σ0 t .load .writers .rlx (res := σ0.writers)
       if σ0.writers = 1 then (o, (σ.setHd g fun y => { y with uni := true }).gotoF t (.sh false) [.acq])
@@ -531,8 +618,9 @@ def stepRun (σ0 : St) (t : Nat) (inp : Nat) : Obs × St :=
       | k => (o, afterNotify σ2 t k)
   ---------------------------------------------------------------- recv
   | .r0 =>
-      let flags := (if σ0.noReader then 2 else 0) + (inp % 2)
-      (mkObs σ0 t .load .signal .rlx (res := flags), σ.goto t .la1)
+      let flags := (if σ0.noReader then 2 else 0) + (if σ0.sigE then 1 else 0)
+      let o := mkObs σ0 t .load .signal .rlx (res := flags)
+      if σ0.sigE then (o, σ.goto t (.u1 .recvStart)) else (o, σ.goto t .la1)
   | .la1 =>
       if h_.uni then stepLa2 σ0 σ t x s
       else
@@ -654,14 +742,12 @@ def stepRun (σ0 : St) (t : Nat) (inp : Nat) : Obs × St :=
       let σ1 := { σ with writers := σ0.writers - 1, sl := σ0.sl.erase g }
       let o := mkObs σ0 t .fsub .writers .sc (a := 1) (res := σ0.writers)
       -- fence, remove_token (manager), then waiter.notify()
-      match σ0.wait with
-      | .blocking _ _ => (o, σ1.gotoF t (.nb1 3) [.sc])
-      | .fut _ _ => (o, σ1.gotoF t (.nf false 6) [.sc])
-      | _ => (o, (teardownStart σ1 t .dropped).setTh t fun y => { y with ff := y.ff ++ [.sc] })
+      -- fence, then remove_token (which starts with update_token), then waiter.notify()
+      (o, σ1.gotoF t (.u1 (.rmTok 0)) [.sc])
   | .cr1 =>
       (mkObs σ0 t .fadd (.ncons s) .sc (a := 1) (res := σ0.ncons s),
        (({ σ with ncons := upd σ0.ncons s (σ0.ncons s + 1), cl := upd σ0.cl s (σ0.cl s ++ [x.ng]), live := if x.outer = Outer.intoSingleFut then σ0.live else σ0.live + 1 }).setHd g fun y => { y with uni := false }).goto t
-         (if x.outer = Outer.intoSingleFut then PC.dr1 else PC.ret .new))
+         (.gt1 .retNew))
   | .un1 =>
       -- [F9] the boolean comes from this load, not from the decrement
       (mkObs σ0 t .load (.ncons s) .rlx (res := σ0.ncons s),
@@ -670,7 +756,7 @@ def stepRun (σ0 : St) (t : Nat) (inp : Nat) : Obs × St :=
       let o := mkObs σ0 t .fsub (.ncons s) .sc (a := 1) (res := σ0.ncons s)
       let σ1 := { σ with ncons := upd σ0.ncons s (σ0.ncons s - 1),
                          cl := upd σ0.cl s ((σ0.cl s).erase (if x.outer = Outer.intoSingleFut then x.ng else g)) }
-      if σ0.ncons s = 1 then (o, σ1.goto t .rr1) else (o, recvDropEnd σ1 t x [.sc])
+      if σ0.ncons s = 1 then (o, σ1.goto t .rr1) else (o, σ1.goto t (.u1 (.rmTok 1)))
   | .rr1 =>
       -- the replacement group is allocated right after this load
       (mkObs σ0 t .load .readers .acq (res := σ0.cur),
@@ -681,19 +767,20 @@ def stepRun (σ0 : St) (t : Nat) (inp : Nat) : Obs × St :=
       let o := mkObs σ0 t .cas .readers .sc .sc (a := cur) (b := ng) (res := σ0.cur) (ok := okk)
       if okk then
         let σ2 := { σ with cur := ng }
-        if (σ0.groups cur).length = 1 then (o, σ2.gotoF t (.rr3 cur) [.sc]) else (o, σ2.gotoF t .rr4 [.sc])
+        if (σ0.groups cur).length = 1 then (o, σ2.gotoF t (.rr3 cur) [.sc])
+        else (o, σ2.gotoF t (.f1 .rmFree1 (.grp cur)) [.sc])
       else
         -- the unpublished group is thrown away and a new one is built from the group seen by the CAS
         (o, ({ σ with nextGrp := σ0.nextGrp + 1,
                       groups := upd σ0.groups σ0.nextGrp ((σ0.groups σ0.cur).filter (· != s)) }).goto t (.rr2 σ0.cur σ0.nextGrp))
-  | .rr3 _ =>
-      (mkObs σ0 t .load (.pos s) .rlx (res := σ0.pos s), ({ σ with lastPos := σ0.pos s }).goto t .rr4)
+  | .rr3 old =>
+      (mkObs σ0 t .load (.pos s) .rlx (res := σ0.pos s), ({ σ with lastPos := σ0.pos s }).goto t (.f1 .rmFree1 (.grp old)))
   | .rr4 =>
       let o := mkObs σ0 t .load .readers .acq (res := σ0.cur)
-      if (σ0.groups σ0.cur).length = 0 then (o, σ.goto t .rr5) else (o, recvDropEnd σ t x [.sc])
+      if (σ0.groups σ0.cur).length = 0 then (o, σ.goto t .rr5) else (o, σ.goto t (.u1 (.rmTok 1)))
   | .rr5 =>
-      let flags := (if σ0.noReader then 2 else 0) + (inp % 2)
-      (mkObs σ0 t .for_ .signal .sc (a := 2) (res := flags), recvDropEnd ({ σ with noReader := true }) t x [.sc])
+      let flags := (if σ0.noReader then 2 else 0) + (if σ0.sigE then 1 else 0)
+      (mkObs σ0 t .for_ .signal .sc (a := 2) (res := flags), ({ σ with noReader := true }).goto t (.u1 (.rmTok 1)))
   | .a1 => (mkObs σ0 t .load .readers .acq (res := σ0.cur), σ.goto t (.a2 σ0.cur))
   | .a2 cur =>
       (mkObs σ0 t .load (.pos s) .rlx (res := σ0.pos s),
@@ -708,7 +795,7 @@ def stepRun (σ0 : St) (t : Nat) (inp : Nat) : Obs × St :=
                             start := upd σ0.start x.ns raw, dlv := upd σ0.dlv x.ns [], est := upd σ0.est x.ns true,
                             cl := upd σ0.cl x.ns [if x.outer = Outer.intoMultiFut then g else x.ng],
                             live := (if x.outer = Outer.intoMultiFut then σ0.live else σ0.live + 1), taintAdd := σ0.taintAdd || (σ0.pos s != raw) }
-        if x.outer = Outer.intoMultiFut then (o, σ2.gotoF t .dr1 [.sc]) else (o, σ2.gotoF t (.ret .new) [.sc])
+        (o, σ2.gotoF t (.f1 .addFree (.grp cur)) [.sc])
       else (o, σ1.gotoF t (.a2 σ0.cur) [.acq])
   | .isg =>
       (mkObs σ0 t .load (.ncons s) .rlx (res := σ0.ncons s),
@@ -731,10 +818,66 @@ def stepRun (σ0 : St) (t : Nat) (inp : Nat) : Obs × St :=
   | .tmd c =>
       (mkObs σ0 t .tauDrop (.val (c % N)), ({ σ with drops := σ0.drops ++ [(σ0.cont (c % N)).getD 0] }).goto t (.tm4 c))
   | .tm4 c => (mkObs σ0 t .store .loc .rlx (a := c + 1), σ.goto t (.tm1 (c + 1)))
-  | .tdr => (mkObs σ0 t .load .readers .rlx (res := σ0.cur), σ.goto t (.ret .dropped))
+  | .tdr => (mkObs σ0 t .load .readers .rlx (res := σ0.cur), σ.goto t .tdm)
+  | .tdm =>
+      (mkObs σ0 t .lock .mxwtf,
+       ({ σ with freed := σ0.freed ++ σ0.wtf ++ σ0.tofree, wtf := [], tofree := [] }).goto t (.ret .dropped))
   ---------------------------------------------------------------- sink
   | .sy => (mkObs σ0 t .yield_ .anon, σ.goto t .s0)
   | .spl => (mkObs σ0 t .lock .pwait, σ.goto t .s0)
+  ---------------------------------------------------------------- memory manager
+  | .u1 k => (mkObs σ0 t .load .epoch .rlx (res := σ0.epoch), σ.goto t (.u2 k σ0.epoch))
+  | .u2 k e =>
+      let v := σ0.tokv h_.tok
+      let o := mkObs σ0 t .load (.tok h_.tok) .rlx (res := v)
+      if v = e then (o, mgrDone σ t k) else (o, σ.goto t (.u3 k e))
+  | .u3 k e =>
+      (mkObs σ0 t .store (.tok h_.tok) .rel (a := e), mgrDone { σ with tokv := upd σ0.tokv h_.tok e } t k)
+  | .gt1 k => (mkObs σ0 t .lock .mxmgr, ({ σ with mgrOwner := some t }).goto t (.gt2 k))
+  | .gt2 k =>
+      -- the new token starts at the current epoch and is registered; the guard is dropped
+      (mkObs σ0 t .load .epoch .acq (res := σ0.epoch),
+       mgrDone { σ with tokv := upd σ0.tokv x.ng σ0.epoch, toks := σ0.toks ++ [x.ng], mgrOwner := none } t k)
+  | .f1 k ob => (mkObs σ0 t .lock .mxwtf, ({ σ with wtfOwner := some t, wtf := σ0.wtf ++ [ob] }).goto t (.f2 k))
+  | .f2 k =>
+      let okk := σ0.mgrOwner.isNone
+      let o := mkObs σ0 t .trylock .mxmgr (ok := okk)
+      if okk then (o, ({ σ with mgrOwner := some t }).goto t (.f3 k)) else (o, freeTail σ t k)
+  | .f3 k =>
+      let o := mkObs σ0 t .load .epoch .sc (res := σ0.epoch)
+      if σ0.toks.length = 0 then (o, freeTail { σ with mgrOwner := none } t k)
+      else (o, σ.goto t (.f4 k σ0.epoch 0))
+  | .f4 k e i =>
+      let tk := σ0.toks.getD i 0
+      let v := σ0.tokv tk
+      let o := mkObs σ0 t .load (.tok tk) .acq (res := v)
+      if v = e then
+        if i + 1 < σ0.toks.length then (o, σ.goto t (.f4 k e (i + 1)))
+        else
+          -- every registered token has reached the epoch: the pending batch is released
+          (o, ({ σ with freed := σ0.freed ++ σ0.tofree, tofree := [], iepoch := e }).goto t (.f5 k))
+      else (o, freeTail { σ with mgrOwner := none } t k)
+  | .f5 k =>
+      let flags := (if σ0.noReader then 2 else 0) + (if σ0.sigE then 1 else 0)
+      (mkObs σ0 t .fand .signal .rel (a := 18446744073709551614) (res := flags),
+       freeTail { σ with sigE := false, mgrOwner := none } t k)
+  | .f7 k =>
+      let okk := σ0.mgrOwner.isNone
+      let o := mkObs σ0 t .trylock .mxmgr (ok := okk)
+      if okk then (o, ({ σ with mgrOwner := some t }).goto t (.f8 k)) else (o, freeEnd σ t k)
+  | .f8 k =>
+      let o := mkObs σ0 t .load .epoch .rlx (res := σ0.epoch)
+      if σ0.iepoch = σ0.epoch then
+        (o, ({ σ with tofree := σ0.wtf, wtf := [] }).goto t (.f9 k σ0.epoch))
+      else (o, freeEnd { σ with mgrOwner := none } t k)
+  | .f9 k cur => (mkObs σ0 t .store .epoch .rel (a := cur + 1), ({ σ with epoch := cur + 1 }).goto t (.f10 k))
+  | .f10 k =>
+      let flags := (if σ0.noReader then 2 else 0) + (if σ0.sigE then 1 else 0)
+      (mkObs σ0 t .for_ .signal .rel (a := 1) (res := flags), freeEnd { σ with sigE := true, mgrOwner := none } t k)
+  | .rt1 kk =>
+      -- remove_token: lock, unregister, then free(token) (whose try_locks fail: the lock is held)
+      (mkObs σ0 t .lock .mxmgr,
+       ({ σ with mgrOwner := some t, toks := σ0.toks.erase h_.tok }).goto t (.f1 (.rmTokFree kk) (.tokO h_.tok)))
 where
   stepLa2 (σ0 σ : St) (t : Nat) (x : Th) (s : Nat) : Obs × St :=
     let p := σ0.pos s
@@ -746,13 +889,6 @@ where
   startNotify2 (σ : St) (t : Nat) : St :=
     -- start_send: the second `waiter.notify()` after the one inside try_send
     σ.goto t (.nf false 2)
-  recvDropEnd (σ : St) (t : Nat) (x : Th) (f : List Ord) : St :=
-    -- fence SeqCst; f(): futures receivers notify the producers' list; then a possible teardown
-    let r : Res := match x.outer with | .unsub => .bool (x.aux = 1) | _ => .dropped
-    let h_ := σ.hs x.g
-    if h_.fut then
-      (σ.setTh t fun y => { y with ff := y.ff ++ f }).goto t (.nf true (match x.outer with | .unsub => 9 | .intoSingleFut => 10 | .intoMultiFut => 11 | _ => 6))
-    else (teardownStart σ t r).setTh t fun y => { y with ff := y.ff ++ f }
 
 /-- does the call need a fresh stream id -/
 def needStream (o : Outer) : Bool := o = Outer.addStream || o = Outer.intoMultiFut
@@ -774,7 +910,7 @@ def kindOk (o : Outer) (h : Hd) : Bool :=
 def callOk (σ : St) (t : Nat) (o : Outer) (g ng ns : Nat) : Bool :=
   let h_ := σ.hs g
   decide ((σ.th t).pc = .idle) && h_.alive && !h_.busy && kindOk o h_ &&
-  !((o = Outer.clone || o = Outer.addStream || o = Outer.intoSingleFut) && ((σ.hs ng).used || ng = g)) &&
+  !((o = Outer.clone || o = Outer.addStream || o = Outer.intoSingleFut || o = Outer.intoMultiFut) && ((σ.hs ng).used || ng = g)) &&
   !(needStream o && σ.sused ns)
 
 /-- reserve the stream id, mark the handle busy, record the call's arguments in the thread -/
@@ -800,18 +936,18 @@ def callEntry (σ1 : St) (t : Nat) (o : Outer) (g ng ns : Nat) : St :=
       | .clone =>
           if h_.sender then
             ((σ1.setHd g fun y => { y with uni := false }).setHd ng fun _ =>
-              { sender := true, stream := 0, uni := false, fut := h_.fut, view := false, alive := false, used := true }).goto t .cs1
+              { sender := true, stream := 0, uni := false, fut := h_.fut, view := false, alive := false, used := true, tok := ng }).goto t (.gt1 .cloneS)
           else
-            (σ1.setHd ng fun _ => { h_ with uni := false, alive := false, used := true, busy := false }).goto t .cr1
+            (σ1.setHd ng fun _ => { h_ with uni := false, alive := false, used := true, busy := false, tok := ng }).goto t .cr1
       | .addStream =>
-          (σ1.setHd ng fun _ => { h_ with stream := ns, uni := true, alive := false, used := true, busy := false }).goto t .a1
+          (σ1.setHd ng fun _ => { h_ with stream := ns, uni := true, alive := false, used := true, busy := false, tok := ng }).goto t .a1
       | .drop => if h_.sender then (σ1.setHd g fun y => { y with alive := false }).goto t .ds1
                  else (σ1.setHd g fun y => { y with alive := false }).goto t .dr1
       | .unsub => if h_.sender then (σ1.setHd g fun y => { y with alive := false }).goto t .ds1
                   else (σ1.setHd g fun y => { y with alive := false }).goto t .un1
       | .intoSingle => σ1.goto t .isg
       | .intoSingleFut => (σ1.setHd ng fun y => { y with used := true }).goto t .cr1
-      | .intoMultiFut => σ1.goto t .a1
+      | .intoMultiFut => (σ1.setHd ng fun y => { y with used := true }).goto t .a1
       | .intoMulti => σ1.goto t (.ret .multi)
       | .none => σ
 
@@ -828,9 +964,10 @@ def step (σ : St) : Label → St
           match x.outer with
           | .clone | .addStream => σ1.setHd x.ng fun y => { y with alive := true }
           | .intoSingle | .intoSingleFut =>
-              if (σ.th t).pc = .ret .single then σ1.setHd x.g fun y => { y with view := true } else σ1
+              let σ2 := if x.outer = Outer.intoSingleFut then σ1.setHd x.g fun y => { y with tok := x.ng } else σ1
+              if (σ.th t).pc = .ret .single then σ2.setHd x.g fun y => { y with view := true } else σ2
           | .intoMulti => σ1.setHd x.g fun y => { y with view := false }
-          | .intoMultiFut => σ1.setHd x.g fun y => { y with view := false, stream := x.ns, uni := true }
+          | .intoMultiFut => σ1.setHd x.g fun y => { y with view := false, stream := x.ns, uni := true, tok := x.ng }
           | _ => σ1
       | _ => σ
   | .arc t =>
@@ -847,7 +984,7 @@ def init (N : Nat) (bcast : Bool) (wait : WaitK) (fut : Bool) : St :=
   { N, bcast, wait,
     groups := upd (fun _ => []) 1 [0],
     ncons := upd (fun _ => 0) 0 1,
-    hs := upd (upd (fun _ => {}) 0 { sender := true, alive := true, fut := fut, used := true })
-              1 { sender := false, alive := true, fut := fut, used := true } }
+    hs := upd (upd (fun _ => {}) 0 { sender := true, alive := true, fut := fut, used := true, tok := 0 })
+              1 { sender := false, alive := true, fut := fut, used := true, tok := 1 } }
 
 end MQ
